@@ -39,7 +39,7 @@ RULE = (
 )
 BOUNDS = {
     "quick": {"max_rows": 2, "D": [1, 2], "sweeps": "3, then reset_model() and 1 more", "deviation_bound": 0, "deviation_datasets": 0,
-              "whole_run_scripts": "default pattern; every gamma draw x0.002; every gamma draw x500 (precisions driven into both clipping bounds)",
+              "whole_run_scripts": "default pattern; every gamma draw x0.002; every gamma draw x500 (precisions driven into both clipping bounds); far state: the second sweep started from an intercept of +14 / -14 (fitted values beyond +-10, a state a chain reaches only rarely)",
               "sparse_large_probes": "4097 and 5000 observations, D=2, 3 sweeps: fitted values vs parameters after every block, export",
               "incremental": "every dataset also with its observations handed over in two add_observations calls (every split point), default answer pattern"},
     "thorough": {"max_rows": 3, "D": [1, 2, 3], "sweeps": "3, then reset_model() and 1 more", "deviation_bound": 1, "deviation_datasets": "all datasets with <= 2 rows, D=2",
@@ -474,7 +474,7 @@ class Patches:
             setattr(owner, name, old)
 
 
-def execute(ds, D, deviation, sweeps, split=None):
+def execute(ds, D, deviation, sweeps, split=None, inject=None):
     """Returns (violations [(sig, msg)], n_blocks, n_draws, outcome digest material).
     split=k: the observations reach the model in two add_observations calls (first k rows, then the rest)."""
     out = []
@@ -530,6 +530,9 @@ def execute(ds, D, deviation, sweeps, split=None):
                 # a second run on the same model object, as sampling.sample does it: reset, then step again.
                 # Every clause must hold from the reset state too (nothing may survive the reset in a cache).
                 model.reset_model()
+            if inject is not None and s == 1:
+                # far state: the sweep starts from parameters a chain reaches only rarely (fitted values beyond +-10)
+                wm.alpha = type(wm.alpha)(inject) if not isinstance(wm.alpha, float) else float(inject)
             del order[:]
             n0 = len(rec.records)
             model.step()
@@ -675,30 +678,31 @@ def plan(tier, seed):
 LARGE_PROBES = [4097, 5000]
 DEV_VALUES = [{"z": 3.0, "g": 0.01}, {"z": -3.0, "g": 100.0}]
 # whole-run scripts (every gamma draw extreme): drive every precision into its lower / upper clipping bound
+# ... and every normal draw far out in one tail: parameters (and fitted values well beyond +-10) that a chain reaches only rarely
 GLOBAL_SCRIPTS = [("all", {"g": 0.002}), ("all", {"g": 500.0})]
 
 
-def report(col, res, ds, D, deviation, sweeps, split=None):
-    case = {"dataset": list(ds), "D": D, "deviation": deviation, "sweeps": sweeps, "split": split}
+def report(col, res, ds, D, deviation, sweeps, split=None, inject=None):
+    case = {"dataset": list(ds), "D": D, "deviation": deviation, "sweeps": sweeps, "split": split, "inject": inject}
     for sig, msg in res:
         col.violation(f"C08|{sig.split('[')[0] if '|' not in sig else sig}", f"dataset {[row_types()[i] for i in ds]}, D={D}, script deviation {deviation}: {msg}", case)
 
 
-def run_one(col, ds, D, deviation, sweeps, split=None):
+def run_one(col, ds, D, deviation, sweeps, split=None, inject=None):
     if deviation is None:
         dv = None
     elif deviation[0] == "all":
         dv = GLOBAL_SCRIPTS[deviation[1]]
     else:
         dv = (deviation[0], DEV_VALUES[deviation[1]])
-    res, n_blocks, n_draws, rec, mvns = execute(ds, D, dv, sweeps, split=split)
+    res, n_blocks, n_draws, rec, mvns = execute(ds, D, dv, sweeps, split=split, inject=inject)
     col.evaluations += 1
     col.states += n_blocks + 1
     col.transitions += n_blocks
     col.count("draws", n_draws)
-    col.outcome(tuple(ds), D, deviation, split, np.asarray(rec.wm.W).tobytes(), float(rec.wm.prec))
+    col.outcome(tuple(ds), D, deviation, split, inject, np.asarray(rec.wm.W).tobytes(), float(rec.wm.prec))
     if ds:
-        col.nontriv(tuple(ds), D, deviation, split)
+        col.nontriv(tuple(ds), D, deviation, split, inject)
     # normalise signatures: 'W0[1]|prior' -> 'W0|prior'
     norm = []
     for sig, msg in res:
@@ -706,7 +710,7 @@ def run_one(col, ds, D, deviation, sweeps, split=None):
         head[0] = head[0].split("[")[0]
         norm.append(("|".join(head), msg))
     report(col, [(sg + ("|two-add-calls" if split else ""), ms + (f" (observations added in two calls: {split} + {len(ds) - split})" if split else "")) for sg, ms in norm],
-           ds, D, deviation, sweeps, split)
+           ds, D, deviation, sweeps, split, inject)
     return rec, mvns
 
 
@@ -751,6 +755,9 @@ def run_item(item, col, tier):
             # history: the same observations handed over in two add_observations calls (results arrive plate by plate)
             for k in range(1, len(dss[i])):
                 run_one(col, dss[i], item["D"], None, sweeps, split=k)
+            if dss[i]:
+                for far in (14.0, -14.0):
+                    run_one(col, dss[i], item["D"], None, sweeps, inject=far)
         out = []
         check_mvn_sampler(seen_q[:40], out)
         col.count("mvn_pairs_checked", len(seen_q[:40]))
@@ -778,4 +785,4 @@ def replay(case, col):
         run_item({"kind": "large", "n": case["large"], "D": case.get("D", 2)}, col, "quick")
         return
     dev = case.get("deviation")
-    run_one(col, tuple(case["dataset"]), case["D"], None if dev is None else tuple(dev), case.get("sweeps", 3), split=case.get("split"))
+    run_one(col, tuple(case["dataset"]), case["D"], None if dev is None else tuple(dev), case.get("sweeps", 3), split=case.get("split"), inject=case.get("inject"))
